@@ -1,0 +1,39 @@
+//go:build verif
+
+// Machine-checked contracts for package signinit (comment-only; see /verif/DESIGN.md).
+
+package signinit
+
+//@ func PublishAudit
+//@   property C06
+//@   ghost amqpOK bool = false
+//@   ghost fileOK bool = false
+//@   on call (*audit.Info).Publish(i, _) ret (e): amqpOK = (e == nil && i == info)
+//@   on call (*audit.Info).AppendTo(i, f) ret (e): fileOK = (e == nil && i == info && f == shared.CurrentConfig.AuditFile)
+//@   ensures @every_configured_sink_received_the_record ret0 == nil ==> \
+//@        (shared.CurrentConfig.Amqp != nil && shared.CurrentConfig.Amqp.URL != "" ==> amqpOK) && \
+//@        (shared.CurrentConfig.AuditFile != "" ==> fileOK)
+//@   modifies map(info.Attributes)
+//@
+//@ func InitKey
+//@   property C06
+//@   ensures @usable_results ret2 == nil ==> ret0 != nil && ret1 != nil
+//@
+//@ func Init
+//@   property C06
+//@   ghost keyCfg *config.KeyConfig = nil
+//@   ghost keyCfgName string = ""
+//@   ghost theCert *certloader.Certificate = nil
+//@   ghost created *audit.Info = nil
+//@   ghost x509Recorded bool = false
+//@   ghost pgpRecorded bool = false
+//@   before call InitKey(_, _, n): assert @key_resolved_by_requested_name n == keyName
+//@   on call InitKey(_, _, _) ret (c, k, e): keyCfg = k; theCert = c
+//@   on call (*config.KeyConfig).Name(k) ret (n): keyCfgName = ite(k == keyCfg, n, keyCfgName)
+//@   before call audit.New(k, t, h): assert @record_names_key_type_digest k == keyCfgName && keyCfg != nil && t == mod.Name && h == hash
+//@   on call audit.New(_, _, _) ret (i): created = i
+//@   on call (*audit.Info).SetX509Cert(i, c) ret (): x509Recorded = (i == created && c == theCert.Leaf)
+//@   on call (*audit.Info).SetPgpCert(i, c) ret (): pgpRecorded = (i == created && c == theCert.PgpKey)
+//@   ensures @record_travels_with_the_options ret2 == nil ==> ret1 != nil && ret1.Audit == created && created != nil && ret1.Hash == hash && ret0 == theCert
+//@   ensures @certificate_recorded ret2 == nil && ret0.Leaf != nil ==> x509Recorded
+//@   ensures @pgp_key_recorded ret2 == nil && ret0.PgpKey != nil ==> pgpRecorded
